@@ -72,6 +72,18 @@ CHECKS = {
         note="Hex.tla is the reference for the hexahedron convention; its tables are compared with the Python mirror at setup.",
         technique="TLA+ specs Hex.tla/Render.tla as trace acceptor over recorded face histories and written files",
         ref="DESIGN.md section 4 C10"),
+    "C03": dict(
+        text="Chop.tla enumerates exact geometric progressions (integer cell sizes, rational ratios) with all five exact "
+             "quantities and off-boundary twins, and TLC checks the closure loop (every pair of inputs reaches all five "
+             "values in <= 3 relation applications; exact closed-form identities); the implementation is evaluated on every "
+             "instance x 10 pairs x scales and compared with the exact values (count sets on ties), the realised cell sizes "
+             "decoded with blockMesh's law; every call's relation sequence is validated by ChopTrace.tla.",
+        note="TLC covers counts <= 9 and ratios p/q with p,q <= 4 (32-bit integers); counts to 200, ratios in [0.5,2] and "
+             "the 1+-1e-7 neighbourhood are covered by harness-side continuation of the same law on real-valued inputs. "
+             "Requests whose (implied) cell size reaches the edge length may be rejected.",
+        technique="TLA+ spec Chop.tla (exact instances + closure state machine) by TLC; instance evaluation against the code; "
+                  "ChopTrace.tla trace validation of relation applications",
+        ref="DESIGN.md section 4 C03, Appendix D"),
 }
 
 def main():
